@@ -56,8 +56,8 @@ def cases(tier, seed):
                 combos = [(BASES[i % 4], PASSES[i % len(PASSES)]), ('word', 'optimize'), ('synth', 'optimize')]
             else:
                 combos = [(b, p) for b in BASES for p in ('optimize', PASSES[i % len(PASSES)])]
-        for b, p in dict.fromkeys(combos):
-            out.append(dict(c, K=K, base=b, pas=p))
+        for j, (b, p) in enumerate(dict.fromkeys(combos)):
+            out.append(dict(c, K=K, base=b, pas=p, scope=('both', 'explicit', 'implicit')[(i + j) % 3]))
     return out
 
 
@@ -76,14 +76,19 @@ def prep(case):
     return blk
 
 
-def apply_pass(case, blk):
+def apply_pass(case, blk, other=None):
+    """scope 'both' (default): blk is the working block and is passed explicitly; 'explicit': `other` is the working block and blk
+    is passed explicitly; 'implicit' (optimize only): blk is the working block and no block is passed"""
     p = case['pas']
-    with pyrtl.set_working_block(blk, no_sanity_check=True):
+    scope = case.get('scope', 'both')
+    wb = other if (scope == 'explicit' and other is not None) else blk
+    okw = {} if scope == 'implicit' else {'block': blk}
+    with pyrtl.set_working_block(wb, no_sanity_check=True):
         if p == 'optimize':
-            r = pyrtl.optimize(block=blk)
+            r = pyrtl.optimize(**okw)
         elif p == 'optimize2':
-            r = pyrtl.optimize(block=blk)
-            r = pyrtl.optimize(block=r)
+            r = pyrtl.optimize(**okw)
+            r = pyrtl.optimize(**({} if scope == 'implicit' else {'block': r}))
         elif p == 'constprop':
             P.constant_propagation(blk, True)
             r = blk
@@ -125,10 +130,14 @@ def run_case(case, ob, tier):
     A = prep(case)
     B0 = prep(case)
     try:
-        B = apply_pass(case, B0)
+        from . import c11
+        fpA = c11.fingerprint(A)
+        B = apply_pass(case, B0, other=A)
     except Exception as e:
         ob.fact('pass-accepts-design', False, site + ':raises', detail='%s: %s' % (type(e).__name__, e))
         return
+    ob.fact('pass-touches-only-the-block-it-was-given', c11.fingerprint(A) == fpA, site + ':other-block-modified',
+            detail='scope=%s' % case.get('scope', 'both'))
     ob.fact('keeps-every-input-and-output', io_sig(A) == io_sig(B), site + ':io', detail=[io_sig(A), io_sig(B)])
     try:
         B.sanity_check()
@@ -165,11 +174,15 @@ def replay(cex):
     site = cex.get('site', '')
     A = prep(case)
     B0 = prep(case)
+    from . import c11
+    fpA = c11.fingerprint(A)
     try:
-        B = apply_pass(case, B0)
+        B = apply_pass(case, B0, other=A)
     except Exception as e:
         return True, 'pass raised %s: %s on %r' % (type(e).__name__, e, case)
     if cex.get('structural'):
+        if c11.fingerprint(A) != fpA:
+            return True, 'the pass modified a block it was not given (scope=%s)' % case.get('scope', 'both')
         if io_sig(A) != io_sig(B):
             return True, 'I/O changed: %r -> %r' % (io_sig(A), io_sig(B))
         try:
